@@ -300,10 +300,11 @@ def check_scripted(case, col=None):
             where = 'scripted REPL, command %d of %d (%d line(s), %s, maxread %d)' % (i, len(case['cmds']), len(lines), case['mode'], case['maxread'])
             try:
                 with guard(where, allow=(EOF, TIMEOUT)):
+                    Tcmd = None if (case.get('slow') and i % 2 == 1) else 10       # None: "wait for as long as it takes"
                     if loop is None:
-                        got = repl.run_command(cmd, timeout=10)
+                        got = repl.run_command(cmd, timeout=Tcmd)
                     else:
-                        got = loop.run_until_complete(repl.run_command(cmd, timeout=10, async_=True))
+                        got = loop.run_until_complete(repl.run_command(cmd, timeout=Tcmd, async_=True))
             except TIMEOUT:
                 raise Violation('repl-timeout', '%s: TIMEOUT, the prompt was printed (in pieces cut at %r)'
                                 % (where, [ln['cuts'] for ln in lines]))
